@@ -156,3 +156,9 @@ Proof. intros T c. exact (proj1 (fn_errors T c)). Qed.
 (* an object type the registry does not know never yields a space *)
 Theorem C17_unknown_object_type_never_built : forall T names ts, object_types T names = Ok ts -> forall s, In s names -> In s (t_objects T) /\ is_custom s = false.
 Proof. exact object_types_known. Qed.
+(* the order in which a configuration lists its sections is irrelevant (python dictionaries have one entry per key) *)
+Theorem C17_section_order_irrelevant : forall T kv kv' req opt wild, t_dict T (k_env T) = Some (req, opt, wild) -> unique_keys kv -> Permutation kv kv' ->
+  build T (CDict kv) = build T (CDict kv').
+Proof. exact build_section_order. Qed.
+Example C17_section_order_nonvacuous : build gen_tabs (CDict (rev first_tree)) = build gen_tabs (CDict first_tree) /\ builds (CDict first_tree) = true /\ (2 <= length first_tree)%nat.
+Proof. exact section_order_example. Qed.
